@@ -325,6 +325,56 @@ def machine(ctx, runs, steps):
     ctx.floor('steps-with>=2-live-instances', 0.30, 'machine-steps')
 
 
+INTERLEAVINGS = ['ABABABABAB', 'AABBAABBAB', 'ABBBBAAAAB', 'BAAAABBBBA', 'AAAAABBBBB']
+
+
+def check_two_files(codec, blocked, pattern, two_writers):
+    """two files written (one after the other, or record by record in turn) and read side by side, the readers advanced
+    in the order of `pattern`: each reader returns its own file's messages"""
+    def plain(i, n):
+        return {'MTI': '%04d' % (1100 + i), 'DE2': '5' * (12 + i % 7), 'DE3': '%06d' % (i * 7), 'DE72': 'T' * (n % 999 + 1), 'PDS0023': 'N%d' % i}
+    msgs = {'A': [plain(i, 31 + 7 * i) for i in range(5)], 'B': [plain(100 + i, 400 + 301 * i) for i in range(5)]}
+    files = {k: io.BytesIO() for k in 'AB'}
+    try:
+        writers = {k: mciipm.IpmWriter(files[k], encoding=codec, blocked=blocked) for k in 'AB'}
+        pos = {'A': 0, 'B': 0}
+        for k in (pattern if two_writers else 'AAAAABBBBB'):
+            writers[k].write(dict(msgs[k][pos[k]]))
+            pos[k] += 1
+        for k in 'AB':
+            writers[k].close()
+    except Exception as ex:
+        return exc_sig('two-files:write-raises', ex), f'writing two files in turn ({pattern}) raised {ex!r}'
+    readers = {k: iter(mciipm.IpmReader(io.BytesIO(files[k].getvalue()), encoding=codec, blocked=blocked)) for k in 'AB'}
+    pos = {'A': 0, 'B': 0}
+    for k in pattern:
+        try:
+            out = next(readers[k])
+        except StopIteration:
+            return 'two-files:ended-early', f'reader {k} ended after {pos[k]} of 5 records when two files are read in the order {pattern} ({codec}, blocked={blocked})'
+        except Exception as ex:
+            return exc_sig('two-files:read-raises', ex), f'reader {k} raised {ex!r} at record {pos[k] + 1} when two files are read in the order {pattern}'
+        why = c01.compare_out(PACKAGED, msgs[k][pos[k]], out, f'(reader {k}, record {pos[k] + 1}, order {pattern})')
+        if why:
+            return 'two-files:' + why[0], why[1]
+        pos[k] += 1
+    return None
+
+
+def two_files(ctx):
+    n = 0
+    for codec in ('latin_1', 'cp500'):
+        for blocked in (False, True):
+            for pattern in INTERLEAVINGS:
+                for two_writers in (False, True):
+                    n += 1
+                    res = check_two_files(codec, blocked, pattern, two_writers)
+                    if res:
+                        ctx.report(res[0], {'kind': 'two-files', 'codec': codec, 'blocked': blocked, 'pattern': pattern, 'two_writers': two_writers}, res[1])
+    ctx.bulk(n, nontrivial_distinct=n, label='two-files-side-by-side')
+    ctx.enumerated('two files of five messages written in turn or one after the other and read side by side in five interleavings, x codec x blocking')
+
+
 def tasks(tier, seed):
     full = tier == 'thorough'
     t = []
@@ -334,10 +384,13 @@ def tasks(tier, seed):
         t.append(('sweep_sizes', dict(lo=lo, hi=min(lo + 540, 6001), codec='cp500' if (lo // 540) % 2 else 'latin_1')))
     for i in range(6 if not full else 16):
         t.append(('hyp_lists', dict(n=50 if not full else 300)))
+    t.append(('two_files', {}))
     return t
 
 
 def replay(case):
+    if case['kind'] == 'two-files':
+        return check_two_files(case['codec'], case['blocked'], case['pattern'], case['two_writers'])
     if case['kind'] == 'list':
         config = case['config'] or PACKAGED
         # a list case found in a long run may depend on what other instances did earlier in the same process (that is the
